@@ -6,6 +6,7 @@ import SifVerif.Proofs.CreateWF
 import SifVerif.Proofs.Placed
 import SifVerif.Proofs.Refine
 import SifVerif.Proofs.Primary
+import SifVerif.Proofs.RangesStep
 namespace Sif.C02
 
 variable (sha : Bytes → Bytes) (ph : Bytes → Option Bytes)
@@ -209,6 +210,40 @@ theorem C02_refine_history (s : Img) (ops : List (Op × Int)) (W : WF s) (P : Pl
       | succ k =>
         have := ih2 k op' now' (by simpa using hk)
         simpa [runOps, AImg.runOps, a0] using this
+
+/-- **Representability is an invariant, not an assumption**: from a well-formed handle whose
+    numbers fit their Go types and whose objects end below 2^63, every operation whose *inputs* fit
+    (clock reading and explicit times in int64, data type in int32, link in uint32, a 3-byte
+    architecture code) and which does not push the end of the data section beyond int64 leads to
+    such a handle again (`Proofs/RangesStep.lean`). -/
+theorem C02_ranges_step (s : Img) (W : WF s) (R : Ranges s) (E : EndsOK s) (op : Op) (now : Int)
+    (hin : Op.InRange s op now) (hio : (step sha ph s op now).2 ≠ .err .io) :
+    Ranges (step sha ph s op now).1 ∧ EndsOK (step sha ph s op now).1 :=
+  Ranges_step sha ph s W R E op now hin hio
+
+/-- … so the history form of the refinement needs representability of the *start* and of the
+    *inputs* only -/
+theorem C02_refine_history_inputs (s : Img) (ops : List (Op × Int)) (W : WF s) (P : Placed s)
+    (R : Ranges s) (E : EndsOK s)
+    (hin : ∀ k op now, ops[k]? = some (op, now) → Op.InRange (runOps sha ph s (ops.take k)) op now)
+    (hout : ∀ k op now, ops[k]? = some (op, now) →
+      (step sha ph (runOps sha ph s (ops.take k)) op now).2.outsideSpec = false) :
+    abs (runOps sha ph s ops) = (abs s).runOps sha ph ops ∧
+    ∀ k op now, ops[k]? = some (op, now) →
+      (step sha ph (runOps sha ph s (ops.take k)) op now).2 =
+        (((abs s).runOps sha ph (ops.take k)).step sha ph op now).2 :=
+  C02_refine_history sha ph s ops W P
+    (Ranges_history sha ph s ops W R E hin (fun k op now hk h => by
+      have := hout k op now hk
+      rw [h] at this
+      simp [Res.outsideSpec] at this))
+    hout
+
+/-- the input bounds are satisfiable: a set-metadata at an explicit time, at any clock reading in range -/
+example (s : Img) : Op.InRange s (.setMeta 1 (.raw [1]) (.at 1700000000)) 1700000000 := by
+  refine ⟨by unfold I64; omega, ?_⟩
+  show I64 1700000000
+  unfold I64; omega
 
 /-- in the reference model a rejected operation returns the image unchanged (by definition of each
     operation), so with `C02_refine` the abstract view of a handle survives every rejected call -/
